@@ -1400,14 +1400,18 @@ def callbox_table(ctx, rule):
                 if t.callee.is_("tokio::task::spawn::spawn", "tokio::task::spawn::spawn_local", "tokio::task::blocking::spawn_blocking", "tokio::runtime::handle::Handle::spawn"):
                     spawned.append(c.def_)
         for c in cor:
-            for q in pathx.Enum().paths(thir.root(c)):
-                arm = [e[2][0].split("(")[0] for e in q.ev if e[0] == "arm" and e[1].lstrip("^") == "self"]
-                if len(arm) != 1:
-                    continue
-                calls = [strip_generics(e[1]).split("::")[-1] for e in q.ev if e[0] == "call" and not strip_generics(e[1]).endswith("Deref::deref")]
-                awaits = sum(1 for e in q.ev if e[0] == "await")
-                cargs = [pathx.desc(e[2]["a"][1]) for e in q.ev if e[0] == "call" and strip_generics(e[1]).endswith("Fn::call")]
-                rows[arm[0]] = (calls, awaits, cargs)
+            rc = thir.root(c)
+            for vn in ("None", "Sync", "Async"):
+                val = ("v", SUP + "::job::task::" + name, vn, {} if vn == "None" else {"0": thir.ANY})
+                with pathx.reading_through(rc):
+                    evs, und = pathx.calls_under(rc, {}, {"self": val})
+                    if any(u.endswith("self") or "self" in u.split() for u in und):
+                        continue
+                    nodes = [n for n in evs if n.get("k") == "match" or not strip_generics((thir.peel(n["fn"]) or {}).get("def") or "").endswith("Deref::deref")]
+                    calls = [strip_generics(thir.peel(n["fn"]).get("def") or "?").split("::")[-1] for n in nodes if n.get("k") == "call" and isinstance(thir.peel(n["fn"]), dict)]
+                    awaits = sum(1 for n in nodes if n.get("k") == "match")
+                    cargs = [pathx.desc(n["a"][1]) for n in nodes if n.get("k") == "call" and strip_generics((thir.peel(n["fn"]) or {}).get("def") or "").endswith("Fn::call")]
+                rows[vn] = (calls, awaits, cargs)
         want = {"None": ([], 0, []), "Sync": (["call"], 0, [args]), "Async": (["call", "into_pin"], 1, [args])}
         ctx.require(rows == want and not spawned, rule, "callbox:" + name, "%s::call: None -> nothing; Sync -> called with %s; Async -> called and its future awaited; nothing detached" % (name, args),
                     base.loc(base.line), detail=str(rows)[:300] + (" spawned in %s" % spawned if spawned else ""),
